@@ -88,6 +88,14 @@ fn slot_bytes(s: &Value, dict: &Dict) -> [u8; 128] {
         if s["unterminated"].as_bool() == Some(true) && n < 32 {
             put_u16(&mut e, 2 * n, 0x41);
         }
+        // what lies behind the terminating null is not part of the name (MS-CFB fixes the length field and the terminator, not the
+        // rest of the 64-byte field): writers that reuse entries leave the tail of an older, longer name there
+        if s["namejunk"].as_bool() == Some(true) && n < 30 {
+            let junk = [0x2Fu16, 0x5C, 0x3A, 0x21, 0x41, 0xD800, 0x7A];    // / \ : ! A (a lone surrogate) z
+            for i in (n + 1)..32 {
+                put_u16(&mut e, 2 * i, junk[(i - n - 1) % junk.len()]);
+            }
+        }
     }
     e[66] = ty as u8;
     e[67] = s["color"].as_i64().unwrap_or(0) as u8;
